@@ -310,14 +310,28 @@ func H_C05_nested() {
 	for i := range b {
 		b[i] = i
 	}
-	set := hxSet(nil, "/m.jet", `{{ range x := a }}{{ range y := b }}({{ x }}{{ y }}){{ end }}{{ range y := b }}[{{ x }}{{ y }}]{{ end }}{{ end }}`)
+	pre := ""
+	switch ndChoice("before", 4) {
+	case 1:
+		pre = `{{ range none }}x{{ else }}E{{ end }}`
+	case 2:
+		pre = `{{ range none }}x{{ end }}{{ range none }}y{{ else }}E{{ end }}`
+	case 3:
+		pre = `{{ range m0 }}x{{ else }}E{{ end }}{{ range b }}{{ end }}`
+	}
+	set := hxSet(nil, "/m.jet", pre+`{{ range x := a }}{{ range y := b }}({{ x }}{{ y }}){{ end }}{{ range y := b }}[{{ x }}{{ y }}]{{ end }}{{ end }}`)
 	vars := make(VarMap)
 	vars.Set("a", a)
 	vars.Set("b", b)
+	vars.Set("none", []int{})
+	vars.Set("m0", map[string]int{})
 	out, err := hxExec(set, "/m.jet", vars, nil)
 	vfReach("rendered")
 	vfAssert(err == nil, "renders")
 	want := ""
+	if pre != "" {
+		want = "E"
+	}
 	for i := 0; i < n; i++ {
 		for j := 0; j < m; j++ {
 			want += "(" + ndItoa(i) + ndItoa(j) + ")"
